@@ -375,6 +375,19 @@ struct Harness {
 		// implementation snapshot: queue length, free-list length, both counters
 #ifndef VERIF_NO_PRIVATE
 		k += fmt("|I:%zu,%zu,%d,%d", listSize(q->queueList), listSize(q->freeList), (int)q->queueEmptyCounter.load(), (int)q->queueNotifyCounter.load());
+		// ... and the ORDER of the pending list relative to the model's: a state in which the implementation holds the right
+		// events in another order must not be merged with the ordinary state (it would never be expanded, and only a later
+		// consuming call can show the difference)
+		{
+			std::string ord; bool same = true; size_t pos = 0;
+			for(auto it = q->queueList.begin(); it != q->queueList.end(); ++it, ++pos) {
+				int id = it->empty() ? -1 : std::get<1>(it->get().arguments).id;
+				int mi = -1; for(size_t i = 0; i < pending.size(); ++i) if(pending[i].id == id) mi = (int)i;
+				if(mi != (int)pos) same = false;
+				ord += fmt("%d,", mi);
+			}
+			k += same ? std::string("|O=") : "|O:" + ord;
+		}
 #endif
 		return k;
 	}
